@@ -81,9 +81,13 @@ def register(reg):
             return PyDict({'lineno': ln, 'colno': cn})
         return (ln, cn)
 
-    def make_calc_field(it, hint):
+    def make_calc_field(it, hint, cur=None):
+        # lazily created once, then reused: an existing calculator object is kept
+        if cur is not None:
+            return cur
         return mk_calc(it, it.fresh_str('calc_s'), it.ctx.fresh_int('lo'), it.ctx.fresh_int('fo'),
                        it.ctx.fresh_int('co'))
+    make_calc_field.wants_current = True
 
     LN = "(result['lineno'] if as_dict else result[0])"
     CN = "(result['colno'] if as_dict else result[1])"
